@@ -1,10 +1,11 @@
 """C08 — !notnew (and command-line overrides) can change but never create paths."""
 import copy
-from .. import common, gen, mergecorr, oracles, t2
+from .. import common, gen, mergecorr, oracles, t2, ser
 from . import base
 from .C04 import set_plain
 
-THEOREMS = ['C08_new_key_rejected', 'C08_children_inherit', 'C08_first_stage', 'C08_cmdline_path']
+THEOREMS = ['C08_new_key_rejected', 'C08_children_inherit', 'C08_first_stage', 'C08_cmdline_path',
+            'C08_override_sets_exactly_that_path', 'C08_override_mistyped_path_is_an_error']
 PLAIN = gen.PROFILES['plain']
 
 
@@ -242,6 +243,33 @@ def run(rep, tier, rng):
     rep.checker_cmds.append(cmd)
     rep.oblige(f'T3 correspondence Model.Cmdline.inline_yaml = Config.process_cmdline on {len(citems)} inline options (text of the generated document, errors for malformed indices)',
                not bad and not errors, (f'{len(bad)} disagreements, first {copts[bad[0]]!r}' if bad else '') + (errors[0]['log'][-400:] if errors else ''))
+    # T3: the document the command line writes, parsed by the real loader, is Model.Loader.load_doc of the model's override_doc
+    oitems = []
+    for _ in range(150 if tier == 'quick' else 2000):
+        comps = []
+        for j in range(rng.randint(1, 4)):
+            comps.append(rng.choice(cnames))
+            for _ in range(rng.choice([0, 0, 1, 2]) if j else 0):
+                comps.append(rng.randint(0, 5))
+        key = ''
+        for cpt in comps:
+            key += ('[%d]' % cpt) if isinstance(cpt, int) else (('.' if key else '') + cpt)
+        val = rng.randint(0, 99)
+        text = _Config.process_cmdline([f'{key}={val}'])[0][0]
+        try:
+            b = mergecorr.parse_stages([text], [True])
+            intern = ser.Interner()
+            tree = ser.node_term(b.stages[0], intern)
+        except Exception:
+            continue
+        ks = ser.coq_list(ser.key_term(cpt, intern) for cpt in comps[1:])
+        oitems.append(f'((mkLC (Some true) {intern("<s0>")}), {ser.key_term(comps[0], intern)}, {ks}, (SInt {val}), {tree})')
+    ohdr = 'From AY Require Import Model.Eq Model.Loader Proofs.OverrideLoad.\nOpen Scope Z_scope.\n'
+    ochk = 'fun c : lctx * key * list key * scalar * node => node_eqb (load_doc (fst (fst (fst (fst c)))) (override_doc (snd (fst (fst (fst c)))) (snd (fst (fst c))) (snd (fst c)))) (snd c)'
+    bad, errors, wall, cmd = common.run_case_files('c08o', ohdr, oitems, ochk, shard=100)
+    rep.checker_cmds.append(cmd)
+    rep.oblige(f'T3 correspondence load_doc (override_doc k ks v) = the parsed document of Config.process_cmdline on {len(oitems)} override paths (all raw flags)', bool(oitems) and not bad and not errors,
+               (f'{len(bad)} disagreements' if bad else '') + (errors[0]['log'][-400:] if errors else ''))
     nn, cm = [], []
     for _ in range(500 if tier == 'quick' else 8000):
         nn.append(gen_case(rng))
